@@ -36,7 +36,7 @@ from collections import namedtuple, defaultdict
 from http.server import HTTPServer, BaseHTTPRequestHandler
 from json import JSONDecodeError
 from queue import Empty, PriorityQueue
-from threading import Thread
+from threading import Thread, Lock
 from time import perf_counter, sleep
 from typing import Tuple, Dict, Optional
 
@@ -543,6 +543,9 @@ class Messaging(object):
         self.size_ext_msg = defaultdict(lambda: 0)  # type: Dict[str, int]
         self.last_msg_time = 0
         self.msg_queue_count = 0
+        # post_msg is called from several threads: drawing a counter and
+        # queuing the message with it must not be interleaved.
+        self._post_lock = Lock()
 
         self._shutdown = False
 
@@ -665,8 +668,9 @@ class Messaging(object):
             # that the #  tuple will always be orderable. The time is
             # useful to measure the delay between reception and handling
             # of a message.
-            self.msg_queue_count += 1
-            self._queue.put((msg_type, self.msg_queue_count, now, full_msg))
+            with self._post_lock:
+                self.msg_queue_count += 1
+                self._queue.put((msg_type, self.msg_queue_count, now, full_msg))
         else:
             if self.logger.isEnabledFor(logging.DEBUG):
                 self.logger.debug(
